@@ -302,6 +302,10 @@ def judge(case, impl):
     if impl == 'panic' or impl.startswith('abort') or impl.startswith('bad'):
         return 'panic / abort instead of a value or an error value'
     lo, init, hi = d['lo'], d['init'], d['hi']
+    if init != init and lo == lo and hi == hi:
+        # a NaN guess is inside no bracket: it must be rejected up front (repaired by 5439521; before that it
+        # passed both `<` tests, and x - 5 on the reversed bracket [5, 1] returned Ok(5))
+        return None if impl == 'err XInitOutOfBounds' else 'NaN initial guess is not rejected with XInitOutOfBounds'
     if any(v != v for v in (lo, init, hi)):
         # a NaN is no bracket end: outside the quantifier; only "never a panic" is judged
         # (observed: NaN ends are not rejected; on the zero target Ok(NaN) is returned)
@@ -460,7 +464,7 @@ def sim_show(x):
 
 def sim_bisection(poly, lo, init, hi, tol, cap, mode, powfn):
     try:
-        if init < lo or init > hi:
+        if init != init or init < lo or init > hi:
             return 'err XInitOutOfBounds'
         if mode == 1:
             poly = sim_i_derivate(poly)
@@ -733,6 +737,11 @@ def gen(rng, tier):
         init = pick_init(rng, lo, hi, rng.choice(['in', 'in', 'mid', 'lo', 'hi', 'below', 'above']))
         yield emit(coefs, lo, init, hi, rng.choice(TOLS), rng.choice(CAPS), rng.choice([0, 1]), 'random')
 
+    # NaN initial guess on ordered, degenerate and reversed brackets, with roots at the ends (the exact-hit exit)
+    for (c_, lo_, hi_) in [([-5.0, 1.0], 5.0, 1.0), ([-5.0, 1.0], 1.0, 5.0), ([0.0], 2.0, -2.0), ([-1.0, 1.0], 1.0, 1.0),
+                           ([6.0, -5.0, 1.0], 3.0, 2.0), ([6.0, -5.0, 1.0], 2.0, 3.0), ([-2.0, 0.0, 1.0], 2.0, 0.0)]:
+        for mode_ in (0, 1):
+            yield emit(c_, lo_, float('nan'), hi_, 1e-6, 100, mode_, 'nan-guess')
     specials = [float('nan'), float('inf'), float('-inf'), 0.0, -0.0, 5e-324, 1.7976931348623157e308, -1.0, 1.0]
     for _ in range(n_bad):
         kind = rng.choice(['nanbounds', 'badtol', 'twovars', 'unbound', 'hugecoef', 'nanbounds'])
